@@ -139,6 +139,9 @@ func runC13(p *core.Program, r *core.Report) {
 	// SuccessProbability is 2^(Entropy(recipe) - Entropy(relaxed recipe)): it is the exact
 	// fraction only if the character-recipe entropy is the exact count (= C07's rules re-run)
 	r.Borrow("R13.7", func() { runC07(p, r) })
+	// "a recipe comfortably above ~0.1 is never refused" is a statement about the shipped thresholds:
+	// MaxTrials = 200 and MaxFailRate = 1e-9, assigned nowhere else (= C16 R16.4 re-run)
+	borrowSelected(p, r, runC16, "R13.8", func(o core.Obligation) bool { return o.Rule == "R16.4" })
 }
 
 // checkSuccessProbability: R13.7 (shape of SuccessProbability) and R13.8 (the pre-flight test).
@@ -417,11 +420,11 @@ func checkGuardsDominateDraws(p *core.Program, r *core.Report, roles *Roles, cg,
 				okPre := false
 				for _, g := range core.Guards(site.Block()) {
 					if ex, ok := g.Cond.(*ssa.Extract); ok && g.Pos {
-						if c, ok := ex.Tuple.(*ssa.Call); ok && strings.Contains(core.CallName(c), "hasAcceptableFailRate") {
+						if c, ok := ex.Tuple.(*ssa.Call); ok && core.StaticCallee(c) != nil && core.StaticCallee(c) == failRateGate(p) {
 							okPre = true
 						}
 					}
-					if c, ok := g.Cond.(*ssa.Call); ok && g.Pos && strings.Contains(core.CallName(c), "hasAcceptableFailRate") {
+					if c, ok := g.Cond.(*ssa.Call); ok && g.Pos && core.StaticCallee(c) != nil && core.StaticCallee(c) == failRateGate(p) {
 						okPre = true
 					}
 				}
